@@ -65,6 +65,11 @@ class Gen:
             # four may now change the type: feature `retype-global`)
             retype = sc.parent is None and self.chance(self.o.get("retype_global", 0.25))
             cands = sorted(allv) if (sc.parent is not None or retype) else sorted(n for n, (t, m) in allv.items() if ty is not None and t == ty)
+            if sc.parent is None and retype:
+                # floats are never printed (the model prints them as `<float>`): a global that
+                # functions compiled earlier print as an int must not become a float, nor the
+                # other way round
+                cands = [n for n in cands if allv[n][0] == ty or (ty is not None and "flt" not in (ty, allv[n][0]))]
             if cands:
                 self.features.add("shadow")
                 n = self.pick(cands)
@@ -382,7 +387,7 @@ class Gen:
 
     def function(self, sc):
         self.fn_count += 1
-        kind = self.r.randrange(14)
+        kind = self.r.randrange(15)
         name = f"f{self.fn_count}"
         deco = ""
         if self.chance(self.o["decorators"]):
@@ -470,6 +475,43 @@ class Gen:
                 call = f"{name}({arg()}, {arg()})" if two else f"{name}({arg()})"
                 out.append(self.pick([f"println({call})", f"let {name}r = {call}\nprintln({name}r)", f"println({call} + {call})"]))
             out.append(f"println({name}c)")
+        elif kind == 14:        # live ranges with holes: early-dead parameters / locals, then locals made by calls
+            self.features.add("call-into-freed-register")
+            g = f"{name}g"
+            nl = self.r.randrange(2, 6)
+            gb = "; ".join(f"let g{i} = {'k' if i == 0 else f'g{i-1}'} + {self.r.randrange(1, 9)}" for i in range(nl))
+            out.append(f"fn {g}(k) {{ {gb}; return g{nl-1} + {'g0' if nl > 1 else 'k'} }}")
+            out.append(f"fn {g}0() {{ let g0 = {self.r.randrange(1, 9)}; {gb[gb.find(';') + 2:] if nl > 1 else 'let gx = 0'}; return g{nl-1} + g0 }}")
+            ps = self.r.sample(["m", "q", "p", "z"], self.r.randrange(1, 4))
+            vs = list(ps)
+            def call(a):
+                return f"{g}({a})" if self.chance(0.5) else f"{g}0()"
+            body = []
+            k = 0
+            def operand():
+                return self.pick(vs) if self.chance(0.75) else str(self.r.randrange(0, 30))
+            for _ in range(self.r.randrange(2, 7)):
+                k += 1
+                v = f"y{k}" if self.chance(0.85) else self.pick(vs)      # sometimes shadow a parameter / local
+                c = self.r.random()
+                if c < 0.45:
+                    body.append(f"    let {'mut ' if self.chance(0.3) else ''}{v} = {call(operand())}")
+                elif c < 0.7:
+                    body.append(f"    let {v} = {operand()} + {operand()}")
+                elif c < 0.85:
+                    body.append(f"    let {v} = {self.r.randrange(0, 99)}")
+                else:
+                    lv = f"d{k}"
+                    body.append(f"    for {lv} in 0..{self.r.randrange(1, 4)} {{ let mut {self.pick([lv, 'w'])} = {call(operand())}; print({lv}) }}")
+                    continue
+                if v not in vs:
+                    vs.append(v)
+            keep = self.r.sample(vs, self.r.randrange(1, len(vs) + 1))
+            out.append(f"fn {name}({', '.join(ps)}) {{")
+            out += body
+            out.append(f"    return {' + '.join(keep)}")
+            out.append("}")
+            out.append(f"println({name}({', '.join(str(self.r.randrange(0, 9)) for _ in ps)}))")
         elif kind == 11:        # generic (untyped) comparison / arithmetic on mixed int / float operands
             self.features.add("generic-mixed-cmp")
             op = self.pick(["<", "<=", ">", ">=", "==", "!="])
